@@ -1,4 +1,5 @@
 import RV.Proofs.CacheFifoHit
+import RV.Props.C05
 /-!
 # C06 — With room to spare the cache is a faithful map; Wait makes writes visible
 
@@ -100,7 +101,8 @@ theorem set_then_wait_visible {cfg : Cfg} {k : Hash} {c : Conf} {v : Val} {exp :
     (hcalm : ∀ as1 as2 s, acts = as1 ++ as2 → run cfg (stSetSend cfg s0 t N) as1 = some s → Calm k s)
     (httl : exp = Gen.zeroTime ∨ s2.clock < exp) (hcf : CollisionFree s2.log)
     (hlog : s2.log = new ++ (stSetSend cfg s0 t N).log) (hwait : WaitCycle new) :
-    s2.store.lookup k = some ⟨c, v, exp⟩ ∧ NoItemK k (pending s2) :=
+    (s2.store.lookup k = some ⟨c, v, exp⟩ ∧ NoItemK k (pending s2)) ∧
+    NoSetK k s2 ∧ NoDelK k s2 ∧ NoClr s2 ∧ s2.closed = false :=
   Cache.set_then_wait_visible h0 hpc hN hroom hopen hnr hna hnp hothers hnd hnc hacts hr hcalm httl
     (hcf.confAgree k) hlog hwait
 
@@ -118,5 +120,243 @@ theorem entry_stays_retrievable {cfg : Cfg} {k : Hash} {c : Conf} {v : Val} {exp
     (s'.store.lookup k = some ⟨c, v, exp⟩ ∧ NoItemK k (pending s')) ∧
     ∀ c' res, .getRet t k c' res ∈ new → Gen.Cache.getConflictMismatch c' c = false → res = some v :=
   get_hits h0 happ hopen hns hnd hnc hfresh hacts hr hcalm httl (hcf.confAgree k) hlog
+
+/-- `c06_refines_partial` — the per-key content of the refinement, end to end.  Client `t` sends
+the new-item of `Set k v` (key neither resident, accounted nor pending; buffer has room, so the
+`Set` returns true; cache open); run 1 contains a `Wait` called and returned afterwards; run 2 is
+any continuation.  Throughout: nobody else `Set`s/`Del`etes `k`, no `Clear`/`Close`, the policy
+admits `k`'s item and never evicts `k` (`Calm`, implied by `room_admits` when there is room), the
+TTL has not elapsed, `CollisionFree`.  Then every `Get k` (matching conflict) that client `tg`
+performs in run 2 returns exactly `v`, and the entry is still resident at the end.
+This is NOT the full simulation by `MapSpec + FifoSpec` (see the header). -/
+theorem c06_refines_partial {cfg : Cfg} {k : Hash} {c : Conf} {v : Val} {exp : Time} {s0 s2 s3 : State} {t tg : Tid}
+    {N : Item} {acts1 acts2 : List Action} {new1 new2 : List Ev}
+    (h0 : Reach cfg s0) (hpc : s0.cl t = .setSend N)
+    (hN : N.flag = .new ∧ N.key = k ∧ N.conflict = c ∧ N.value = v ∧ N.exp = exp)
+    (hroom : s0.buf.length < cfg.bufCap ∧ s0.sendq = []) (hopen : s0.closed = false)
+    (hnr : s0.store.lookup k = none) (hna : s0.pol.costs.lookup k = none) (hnp : NoItemK k (pending s0))
+    (hothers : ∀ t', t' ≠ t → ¬ (s0.cl t').inSetK k) (hnd : NoDelK k s0) (hnc : NoClr s0)
+    (hacts1 : ∀ a ∈ acts1, ¬ a.isSpawnSet k ∧ ¬ a.isSpawnDel k ∧ ¬ a.isSpawnClear)
+    (hr1 : run cfg (stSetSend cfg s0 t N) acts1 = some s2)
+    (hcalm1 : ∀ as1 as2 s, acts1 = as1 ++ as2 → run cfg (stSetSend cfg s0 t N) as1 = some s → Calm k s)
+    (hlog1 : s2.log = new1 ++ (stSetSend cfg s0 t N).log) (hwait : WaitCycle new1)
+    (hfresh : ∀ c', s2.cl tg ≠ .getRead k c' ∧ (∀ e, s2.cl tg ≠ .getCheck k c' e) ∧ (∀ r, s2.cl tg ≠ .getMetric k c' r))
+    (hacts2 : ∀ a ∈ acts2, ¬ a.isSpawnSet k ∧ ¬ a.isSpawnDel k ∧ ¬ a.isSpawnClear)
+    (hr2 : run cfg s2 acts2 = some s3)
+    (hcalm2 : ∀ as1 as2 s, acts2 = as1 ++ as2 → run cfg s2 as1 = some s → Calm k s)
+    (httl : exp = Gen.zeroTime ∨ s3.clock < exp) (hcf : CollisionFree s3.log)
+    (hlog2 : s3.log = new2 ++ s2.log) :
+    s3.store.lookup k = some ⟨c, v, exp⟩ ∧
+    ∀ c' res, .getRet tg k c' res ∈ new2 → Gen.Cache.getConflictMismatch c' c = false → res = some v := by
+  have hstep : step cfg s0 (.client t .none) = some (stSetSend cfg s0 t N) := by
+    simp [step, clientStep, hpc, needNone]
+  have hreach2 : Reach cfg s2 := (h0.of_step hstep).run hr1
+  have hcf2 : CollisionFree s2.log := by rw [hlog2] at hcf; exact C05.CollisionFree.of_append hcf
+  have httl2 : exp = Gen.zeroTime ∨ s2.clock < exp :=
+    httl.imp id (fun h => Int.lt_of_le_of_lt (run_clock hr2) h)
+  obtain ⟨happ, h1, h2, h3, h4⟩ := set_then_wait_visible h0 hpc hN hroom hopen hnr hna hnp hothers hnd hnc hacts1
+    hr1 hcalm1 httl2 hcf2 hlog1 hwait
+  have := entry_stays_retrievable (t := tg) hreach2 happ h4 h1 h2 h3 hfresh hacts2 hr2 hcalm2 httl hcf hlog2
+  exact ⟨this.1.1, this.2⟩
+
+/-! ## Concrete runs -/
+
+open RV.C05 (cfgX kX cl idle_of_other)
+
+def k9 : Hash := 9#64
+def NX : Item := ⟨.new, kX, 0#64, 11, 1, Gen.zeroTime⟩
+
+/-- client 2's `Set` of another key is buffered; client 1's `Set kX 11` is about to send -/
+def pre0 : List Action :=
+  [.spawn 2 (.set k9 0#64 50 1 0)] ++ cl 2 4 ++ [.spawn 1 (.set kX 0#64 11 1 0)] ++ cl 1 2
+/-- the `Set` returns; the applier applies the other key's item; client 1 calls `Wait`; only now
+the applier applies `kX`'s item and the marker; `Wait` returns -/
+def acts1 : List Action :=
+  cl 1 1 ++ [.applier .selItem, .applier .none, .applier (.add [] true), .applier .none] ++
+  [.spawn 1 .wait] ++ cl 1 2 ++
+  [.applier .selItem, .applier .none, .applier (.add [] true), .applier .none] ++
+  [.applier .selItem, .applier .none] ++ cl 1 2
+/-- `Get kX` by client 1, time passes, `Get kX` by client 2 -/
+def acts2 : List Action := [.spawn 1 (.get kX 0#64)] ++ cl 1 4 ++ [.tick 5] ++ [.spawn 2 (.get kX 0#64)] ++ cl 2 4
+
+theorem pre0_ok : (run cfgX (init cfgX 0) pre0).isSome = true := by rfl
+def s0X : State := (run cfgX (init cfgX 0) pre0).get pre0_ok
+theorem run_pre0 : run cfgX (init cfgX 0) pre0 = some s0X := by simp [s0X]
+def s1X : State := stSetSend cfgX s0X 1 NX
+theorem acts1_ok : (run cfgX s1X acts1).isSome = true := by rfl
+def s2X : State := (run cfgX s1X acts1).get acts1_ok
+theorem run_acts1 : run cfgX s1X acts1 = some s2X := by simp [s2X]
+theorem acts2_ok : (run cfgX s2X acts2).isSome = true := by rfl
+def s3X : State := (run cfgX s2X acts2).get acts2_ok
+theorem run_acts2 : run cfgX s2X acts2 = some s3X := by simp [s3X]
+
+/-- actions that neither spawn a `Set`/`Del` of `k` nor a `Clear`/`Close` (decidable form) -/
+def quietFor (k : Hash) : Action → Bool
+  | .spawn _ (.set h _ _ _ _) => !(h == k)
+  | .spawn _ (.del h _) => !(h == k)
+  | .spawn _ .clear => false
+  | .spawn _ .close => false
+  | _ => true
+
+theorem quietFor_spec {k : Hash} {a : Action} (h : quietFor k a = true) :
+    ¬ a.isSpawnSet k ∧ ¬ a.isSpawnDel k ∧ ¬ a.isSpawnClear := by
+  cases a with
+  | spawn t c => cases c <;> simp_all [quietFor, Action.isSpawnSet, Action.isSpawnDel, Action.isSpawnClear]
+  | _ => simp [Action.isSpawnSet, Action.isSpawnDel, Action.isSpawnClear]
+
+theorem quiet_all {k : Hash} {acts : List Action} (h : acts.all (quietFor k) = true) :
+    ∀ a ∈ acts, ¬ a.isSpawnSet k ∧ ¬ a.isSpawnDel k ∧ ¬ a.isSpawnClear :=
+  fun a ha => quietFor_spec (List.all_eq_true.mp h a ha)
+
+theorem cl_s0X (t : Tid) : s0X.cl t = if t = 1 then .setSend NX else .idle := by
+  by_cases h1 : t = 1
+  · subst h1; rfl
+  · by_cases h2 : t = 2
+    · subst h2; rfl
+    · rw [if_neg h1]
+      exact idle_of_other run_pre0 t (fun hm => by
+        have := (by decide : ∀ x ∈ tidsOf pre0, x = 1 ∨ x = 2) t hm
+        rcases this with e | e
+        · exact h1 e
+        · exact h2 e)
+
+theorem reach_s1X : Reach cfgX s1X :=
+  (reach_of_run_f run_pre0).of_step (show step cfgX s0X (.client 1 .none) = some s1X by rfl)
+
+theorem idle_s2X (t : Tid) : s2X.cl t = .idle := by
+  by_cases h1 : t = 1
+  · subst h1; rfl
+  · by_cases h2 : t = 2
+    · subst h2; rfl
+    · have hidle : s1X.cl t = .idle := by
+        show (stSetSend cfgX s0X 1 NX).cl t = _
+        rw [stSetSend_cl_ne (hne := h1), cl_s0X, if_neg h1]
+      exact run_idle reach_s1X hidle (not_mem_tidsOf (fun hm => h1 ((by decide : ∀ x ∈ tidsOf acts1, x = 1) t hm))) run_acts1
+
+theorem log_s3X : s3X.log =
+    [.getRet 2 kX 0#64 (some 11), .getCall 2 kX 0#64 5, .getRet 1 kX 0#64 (some 11), .getCall 1 kX 0#64 0] ++
+    (([] ++ .waitRet 1 :: ([] ++ .waitCall 1 :: [.setRet 1 11 true])) ++
+    [.setExp 1 11 Gen.zeroTime, .setCall 1 kX 0#64 11 1 0, .setRet 2 50 true, .setExp 2 50 Gen.zeroTime,
+     .setCall 2 k9 0#64 50 1 0]) := by rfl
+theorem log_s3X_s2X : s3X.log =
+    [.getRet 2 kX 0#64 (some 11), .getCall 2 kX 0#64 5, .getRet 1 kX 0#64 (some 11), .getCall 1 kX 0#64 0] ++ s2X.log := by rfl
+theorem log_s2X : s2X.log = ([] ++ .waitRet 1 :: ([] ++ .waitCall 1 :: [.setRet 1 11 true])) ++ s1X.log := by rfl
+
+theorem cf_s3X : CollisionFree s3X.log := by
+  have key : ∀ h c, KeyConf s3X.log h c → c = 0#64 := by
+    intro h c hk
+    rw [log_s3X] at hk
+    rcases hk with ⟨t, v, cost, ttl, hm⟩ | ⟨t, hm⟩ | ⟨t, now, hm⟩ <;> simp at hm <;> grind
+  intro h c1 c2 h1 h2
+  rw [key h c1 h1, key h c2 h2]
+
+/-- Non-vacuity of `c06_refines_partial` (hence of `set_then_wait_visible` and
+`entry_stays_retrievable`): client 2's `Set` of another key is buffered ahead; client 1's `Set kX 11`
+is enqueued while the applier lags; `Wait` is called before the applier has touched `kX`'s item;
+after the `Wait` both clients' `Get kX` return 11 (the second one after the clock has advanced). -/
+example : s3X.store.lookup kX = some ⟨0#64, 11, Gen.zeroTime⟩ ∧
+    ∀ c' res, Ev.getRet 2 kX c' res ∈
+        [Ev.getRet 2 kX 0#64 (some 11), .getCall 2 kX 0#64 5, .getRet 1 kX 0#64 (some 11), .getCall 1 kX 0#64 0] →
+      Gen.Cache.getConflictMismatch c' 0#64 = false → res = some 11 :=
+  c06_refines_partial (t := 1) (tg := 2) (N := NX) (s0 := s0X) (acts1 := acts1) (acts2 := acts2)
+    (reach_of_run_f run_pre0) (by rfl) ⟨rfl, rfl, rfl, rfl, rfl⟩ ⟨by decide, by rfl⟩ (by rfl) (by rfl) (by rfl)
+    (by
+      intro e he
+      have : pending s0X = [.item ⟨.new, k9, 0#64, 50, 1, Gen.zeroTime⟩] := by rfl
+      rw [this] at he; simp at he; subst he
+      simp only [isItemK]; decide)
+    (fun t' hne => by rw [cl_s0X, if_neg hne]; simp [CPc.inSetK])
+    (fun t' => by rw [cl_s0X]; split <;> simp [CPc.inDelK])
+    (fun t' => by rw [cl_s0X]; split <;> rfl)
+    (quiet_all (by rfl)) run_acts1
+    (fun as1 as2 s hsplit hrun => calm_of_calmB (runAllB_spec (by rfl : runAllB cfgX (calmB kX) s1X acts1 = true) as1 as2 s hsplit hrun))
+    log_s2X WaitCycle.of_shape
+    (fun c' => by rw [idle_s2X 2]; simp)
+    (quiet_all (by rfl)) run_acts2
+    (fun as1 as2 s hsplit hrun => calm_of_calmB (runAllB_spec (by rfl : runAllB cfgX (calmB kX) s2X acts2 = true) as1 as2 s hsplit hrun))
+    (Or.inl rfl) cf_s3X log_s3X_s2X
+
+/-- the interesting case really occurs: when `Wait` is called (9 actions into run 1) `kX`'s item is
+still in the buffer and `kX` is not resident; at the end it is. -/
+example : (run cfgX s1X (acts1.take 8)).map (fun s => (s.buf.length, s.store.lookup kX)) = some (2, none) := by rfl
+
+/-- Non-vacuity of `wait_applies_all`: in the same run, when client 1's `waitRet` is logged the
+applier has removed from the front of the pending sequence the item that was pending when the
+marker was enqueued, and the marker. -/
+example : ∃ (sw s2 : State) (acts : List Action) (new : List Ev),
+    Reach cfgX sw ∧ sw.cl 1 = .waitSend ∧ run cfgX (stWaitSend cfgX sw 1) acts = some s2 ∧
+    s2.log = new ++ (stWaitSend cfgX sw 1).log ∧ Ev.waitRet 1 ∈ new ∧ pendE sw ≠ [] ∧
+    (pendE sw ++ [.marker sw.nextMarker]) <+: popped cfgX (stWaitSend cfgX sw 1) acts := by
+  have hpre : (run cfgX s1X (acts1.take 7)).isSome = true := by rfl
+  let sw := (run cfgX s1X (acts1.take 7)).get hpre
+  have hrun : run cfgX s1X (acts1.take 7) = some sw := by simp [sw]
+  have hreach : Reach cfgX sw := reach_s1X.run hrun
+  have hpc : sw.cl 1 = .waitSend := by rfl
+  have hrest : run cfgX (stWaitSend cfgX sw 1) (acts1.drop 8) = some s2X := by rfl
+  have hlog : s2X.log = [.waitRet 1] ++ (stWaitSend cfgX sw 1).log := by rfl
+  exact ⟨sw, s2X, acts1.drop 8, [.waitRet 1], hreach, hpc, hrest, hlog, by simp, by decide,
+    (wait_applies_all hreach hpc hrest hlog (by simp)).2⟩
+
+/-- Non-vacuity of `overwrite_immediate`: in `s2X` (`kX ↦ 11`) a `Set kX 12` by client 1 reaches its
+store step; right after it any client's read sees 12, although nothing has been buffered yet. -/
+example :
+    let s := setCl s2X 1 (.setUpd ⟨.new, kX, 0#64, 12, 1, Gen.zeroTime⟩)
+    (stSetUpd cfgX s 1 ⟨.new, kX, 0#64, 12, 1, Gen.zeroTime⟩).store.lookup kX = some ⟨0#64, 12, Gen.zeroTime⟩ ∧
+    (stSetUpd cfgX s 1 ⟨.new, kX, 0#64, 12, 1, Gen.zeroTime⟩).buf = [] := by
+  intro s
+  refine ⟨(overwrite_immediate cfgX s 1 ⟨.new, kX, 0#64, 12, 1, Gen.zeroTime⟩ ⟨0#64, 11, Gen.zeroTime⟩
+    (by rfl) (by rfl) (by rfl)).1, by rfl⟩
+
+/-- The side condition "not already pending" is necessary: `Set kX 11; Set kX 12` with both items
+still buffered when the applier runs — the second new-item is *rejected* (`policy.Add` answers
+"update"), and after `Wait` the cache holds 11, not 12.  (Run `C05.preA` + applier + `Wait`.) -/
+theorem second_new_rejected :
+    ∃ s, run cfgX (init cfgX 0) (C05.preA ++
+      [.applier .selItem, .applier .none, .applier (.add [] true), .applier .none,
+       .applier .selItem, .applier .none, .applier (.add [] false), .applier .none,
+       .spawn 1 .wait, .client 1 .none, .client 1 .none, .applier .selItem, .applier .none,
+       .client 1 .none, .client 1 .none]) = some s ∧
+    (s.store.lookup kX).map (·.value) = some 11 ∧ Ev.reject kX 0#64 12 1 ∈ s.log ∧
+    s.log.head? = some (.waitRet 1) := by
+  have hok : (run cfgX (init cfgX 0) (C05.preA ++
+      [.applier .selItem, .applier .none, .applier (.add [] true), .applier .none,
+       .applier .selItem, .applier .none, .applier (.add [] false), .applier .none,
+       .spawn 1 .wait, .client 1 .none, .client 1 .none, .applier .selItem, .applier .none,
+       .client 1 .none, .client 1 .none])).isSome = true := by rfl
+  exact ⟨_, (Option.some_get hok).symm, by rfl, by decide, by rfl⟩
+
+/-- Non-vacuity of `stays_until`: the tombstone step of the run `C05.preA ++ C05.restA` erases the
+entry, and the cause reported is `tomb`. -/
+example : ∃ (s s' : State) (e : Entry), Reach cfgX s ∧ step cfgX s (.applier .none) = some s' ∧
+    s.store.lookup kX = some e ∧ s'.store.lookup kX ≠ some e ∧ ∃ i, s.app = .tombPolicy i := by
+  have hpre : (run cfgX (init cfgX 0) (C05.preA ++ C05.restA.take 16)).isSome = true := by rfl
+  let s := (run cfgX (init cfgX 0) (C05.preA ++ C05.restA.take 16)).get hpre
+  have hrun : run cfgX (init cfgX 0) (C05.preA ++ C05.restA.take 16) = some s := by simp [s]
+  have hst : (step cfgX s (.applier .none)).isSome = true := by rfl
+  refine ⟨s, (step cfgX s (.applier .none)).get hst, ⟨0#64, 11, Gen.zeroTime⟩, reach_of_run_f hrun, by simp, by rfl, ?_, ?_⟩
+  · have : ((step cfgX s (.applier .none)).get hst).store.lookup kX = none := by rfl
+    rw [this]; simp
+  · have h1 : s.store.lookup kX = some ⟨0#64, 11, Gen.zeroTime⟩ := by rfl
+    have h2 : ((step cfgX s (.applier .none)).get hst).store.lookup kX ≠ some ⟨0#64, 11, Gen.zeroTime⟩ := by
+      have : ((step cfgX s (.applier .none)).get hst).store.lookup kX = none := by rfl
+      rw [this]; simp
+    cases stays_until (reach_of_run_f hrun) (Option.some_get hst).symm h1 h2 with
+    | tomb i _ hpc _ _ => exact ⟨i, hpc⟩
+    | overwrite t i ha _ _ _ => cases ha
+    | del t c ha _ _ => cases ha
+    | readmit i vs _ hpc _ _ => have : s.app = .tombPolicy ⟨.del, kX, 0#64, 0, 0, Gen.zeroTime⟩ := by rfl
+                                rw [this] at hpc; cases hpc
+    | evicted cost rest _ hpc _ => have : s.app = .tombPolicy ⟨.del, kX, 0#64, 0, 0, Gen.zeroTime⟩ := by rfl
+                                   rw [this] at hpc; cases hpc
+    | cleared t closing j hpc _ =>
+      exfalso
+      have : ∀ t, s.cl t = .idle := by
+        intro t
+        by_cases h : t = 1
+        · subst h; rfl
+        · exact idle_of_other hrun t (fun hm => h ((by decide : ∀ x ∈ tidsOf (C05.preA ++ C05.restA.take 16), x = 1) t hm))
+      rw [this t] at hpc; cases hpc
+    | expired now c bs _ hpc _ _ _ _ => have : s.app = .tombPolicy ⟨.del, kX, 0#64, 0, 0, Gen.zeroTime⟩ := by rfl
+                                        rw [this] at hpc; cases hpc
 
 end RV.C06
